@@ -47,11 +47,60 @@ prop('C01', src='props/c01_roundtrip.cpp',
           'decode (auto) is OK with the same language and seed, or MULT_LANG only if decode_explicit in another registered language does not answer LANG. '
           'Non-trivial = coin>2 or user features or encrypted or language in {ja,ko,es,fr} or ambiguous or NFKD length >= 300; distinct = FNV-1a of the serialised case.',
      required_classes={'any': ['ambiguous(MULT_LANG)', 'long(internal>=300)', 'encrypted+userfeatures', 'coin>2', 'path:load', 'path:create']},
-     assumptions=['seeds are built through create(+crypt) or load of the model image; a case whose construction fails is discarded and counted'])
+     assumptions=['seeds are built through create(+crypt) or load of the model image; a case whose construction fails is discarded and counted'],
+     technique='property-based testing (rapidcheck): generated seeds x languages x coins, encode/decode round-trip oracle under ASan+UBSan with real NFC/NFKD',
+     level_text='Randomised exploration with three biased generators (uniform, longest Korean/Japanese words, Chinese-overlap words); every case compares the decoded seed with the original in all observable respects and checks the auto-detection verdict model-free. Sampling only: 2^165 seeds cannot be enumerated, so the level is exploration.')
 
-PROPS['C01'].update(
-    technique='property-based testing (rapidcheck): generated seeds x languages x coins, encode/decode round-trip oracle under ASan+UBSan with real NFC/NFKD',
-    level_text='Randomised exploration with three biased generators (uniform, longest Korean/Japanese words, Chinese-overlap words); every case compares the decoded seed with the original in all observable respects and checks the auto-detection verdict model-free. Sampling only: 2^165 seeds cannot be enumerated, so the level is exploration.')
+prop('C02', src='props/c02_checksum.cpp',
+     plan={'quick': [{'variant': 'asan', 'workers': 16}], 'thorough': [{'variant': 'asan', 'workers': 16, 'timeout': 14400}]},
+     exhaustive=True,
+     rule='(1) exhaustive arithmetic core: for every field element e (2048) and phrase position p (16) the phrase whose only non-zero data coefficient is e at p must validate with check word e*2^p (GF(2^11), x^11+x^2+1) and fail with two other check words; '
+          '(2) rapidcheck phrases (seed x language x coin, words taken from the library via the coin-XOR table): every position x replacement word (all 2047 when full=1, every 8th / 64th otherwise), all <=120 swaps of unequal words, all 2048 check-word candidates, '
+          'and the stored image with each of the 2047 other check values. Oracle: exactly CHECKSUM from decode_explicit, never OK from decode/load, exactly one validating check word. '
+          'Each mutated phrase is one non-trivial case; distinct = (phrase case fingerprint, mutation number).',
+     required_classes={'any': ['core', 'substitutions', 'swaps', 'checkword-candidates', 'images-with-altered-check-value']},
+     technique='exhaustive enumeration of the GF(2048) doubling rule through the public decoder + property-based metamorphic testing (mutated phrase => CHECKSUM; unique check word)',
+     level_text='The algebraic core (every field element at every Horner position) is enumerated completely through the public decoder; substitutions/transpositions/check-word uniqueness are explored on generated phrases (all 2047 substitutes per position for a sample of phrases). Exploration: phrases are sampled, the element x position table is exhaustive.')
+
+prop('C03', src='props/c03_layout.cpp',
+     plan={'quick': [{'variant': 'asan', 'workers': 16}], 'thorough': [{'variant': 'asan', 'workers': 16}, {'variant': 'rel', 'workers': 16}]},
+     exhaustive=True,
+     rule='(i) exhaustive: all payloads of weight 0, 1 and 2 over the 164 holdable payload bits (150 secret, 4 feature bits, 10 birthday bits; the reserved feature bit cannot be held by any seed) x every registered language x coins {0,1,1024,2047}; '
+          '(ii) rapidcheck random (secret, birthday, features, coin, language, enabled mask). Oracle: polyseed_encode output is byte-equal to the phrase of the independent reference model '
+          '(bit-indexed packing, carry-less GF check value, coin XOR on word 2, golden word list, specification separator, NFC for es/fr/ja/ko), returned length = strlen, store bytes 30-31 = LE16(0x7000|check); '
+          'purity: same abstract seed via create and via load, after other encodes, gives the identical string. Every case is non-trivial (conformance); distinct = case fingerprint.',
+     required_classes={'any': ['encrypted', 'userfeatures', 'birthday>511', 'coin:>=1024', 'purity:create-vs-load']},
+     technique='property-based conformance testing against an independent reference encoder (rapidcheck) + exhaustive enumeration of all weight<=2 payloads, which determine a bit-linear packing',
+     level_text='Differential against a reference model written from the README, validated on the three published vectors. Weight<=2 payloads are enumerated completely for all languages (a bit-linear packing is determined by them); the rest is random sampling, hence exploration.')
+
+prop('C05', src='props/c05_coin.cpp',
+     plan={'quick': [{'variant': 'asan', 'workers': 16}], 'thorough': [{'variant': 'asan', 'workers': 16, 'timeout': 14400}]},
+     exhaustive=True,
+     rule='(1) exhaustive coin table: for k seeds (2 quick / 24 thorough, language rotating with the seed) every ordered pair (A,B), A != B, of the 2048 coins: decode_explicit(phrase_A, B) = CHECKSUM, decode_explicit(phrase_A, A) = OK and the same seed; for a 1/64 sample also decode(auto) != OK and phrases for A and B differ in word 2 only; '
+          '(2) rapidcheck random (seed, language, A, B) with one-bit, complementary and +1024 differences weighted. Each (seed, language, A, B) is one non-trivial case.',
+     required_classes={'any': ['rows', 'pairs', 'coin-pairs']},
+     technique='exhaustive enumeration of all 2048x2047 ordered coin pairs per seed + property-based metamorphic testing (other coin => CHECKSUM, word-2-only difference)',
+     level_text='All ordered coin pairs are enumerated for a few seeds per run; seeds and languages are sampled. Exploration.')
+
+prop('C06', src='props/c06_storage.cpp',
+     plan={'quick': [{'variant': 'asan', 'workers': 16}], 'thorough': [{'variant': 'asan', 'workers': 16}, {'variant': 'rel', 'workers': 16}]},
+     exhaustive=True,
+     rule='(1) exhaustive field sweeps around 3 valid images: each header byte x 255 values, bytes 8-9 x 65536 (old and recomputed check value), padding bits x 8 masks, byte 29 x 256, bytes 30-31 x 65536, every secret bit flip (old and recomputed check); '
+          '(2) rapidcheck buffers: 1-6 simultaneous field mutations (with/without recomputed check), valid images under random masks, random buffers with a valid header/frame, uniform random; (3) seed round trips. '
+          'Oracle: load status equals the model verdict with precedence FORMAT > CHECKSUM > UNSUPPORTED; OK implies store(load(buf)) == buf and equal getters; store bytes equal the model image; no block left allocated on failure; input unmodified. '
+          'Non-trivial = buffer passes the header test; distinct = fingerprint of (buffer, mask).',
+     required_classes={'any': ['verdict:OK', 'verdict:CHECKSUM', 'verdict:UNSUPPORTED', 'verdict:FORMAT', 'gen:padding:new-check', 'gen:bytes8-9:new-check', 'seed-roundtrip']},
+     technique='property-based testing against a reference model of the 32-byte image (rapidcheck structured buffer generator) + exhaustive field-wise enumeration',
+     level_text='Acceptance is decided against an independent model of the image for every enumerated/generated buffer; non-secret fields are swept exhaustively around valid images, the 2^256 buffer space is sampled. Exploration. Little-endian host only.')
+
+prop('C07', src='props/c07_wordlists.cpp',
+     plan={'quick': [{'variant': 'asan', 'workers': 16}], 'thorough': [{'variant': 'asan', 'workers': 16}, {'variant': 'rel', 'workers': 16}]},
+     exhaustive=True,
+     rule='exhaustive: every published language x index 0..2047 x phrase position 1..16 (327680 placements): the token the library emits at that position equals the sha256-pinned published word byte for byte, and the phrase built from published words decodes (decode_explicit; decode as well in thorough) to exactly the seed with that coefficient (odd indices in word 3: UNSUPPORTED); '
+          'plus per language: 2048 distinct NFKD words stable under NFC->NFKD, separator normalises to U+0020, first four accent-stripped letters pairwise distinct and no word of >= 4 letters a prefix of another (abbreviating languages), library index table (via coin XOR) identical to the published list; registry contains the ten published names. Every placement is non-trivial.',
+     required_classes={'any': ['registry', 'decode-only(word3 odd)']},
+     technique='exhaustive enumeration (all languages x indices x positions) against golden data, through encode and both decoders',
+     level_text='The domain is finite (10 x 2048 x 16) and is enumerated completely on every run, in a sanitised build with the library self-test assertions enabled. Exhaustive exploration of the stated domain.')
 
 NOT_APPLICABLE = {}
 MANIFEST_NOTES = 'All checks: ./check run <ID> --tier quick|thorough; VERIF_SEED selects the generator seed; evidence in /verif/evidence/<ID>.json; replay files under /verif/replays/<ID>/; committed regression cases under /verif/regress/<ID>/. See DESIGN.md.'
